@@ -35,7 +35,7 @@ a receiver descriptor is
     {'cls','shape','item','kind','mask','derivs','units','ro'}   (see RECV docs below)
 and an argument spec is a small list: ['lit', python literal] | ['self'] | ['same'] (a fresh equal
 twin of the receiver) | ['obj', receiver descriptor] | ['units', name] | ['cls', [names]] |
-['bcast'] (same class, a different broadcastable array shape) | ['nparr', dtype, shape] | ['mask', rep] | ['index', tag] | ['derivdict', n] | ['omit'].
+['bcast'] (same class, a different broadcastable array shape) | ['bcast1'] (same class, shape (1,), masked by an array mask) | ['nparr', dtype, shape] | ['mask', rep] | ['index', tag] | ['derivdict', n] | ['omit'].
 Everything is rebuilt from the descriptor by ``build_call`` so a descriptor alone replays a call.
 
 An Event has: desc, fn, recv, args, kwargs, ok (bool), result, exc (exception or None),
@@ -264,6 +264,7 @@ def obj_pool(cname, mname, pname, recv):
     pool = [['same'], ['self'], ['obj', _scalar_desc((), 'float')], ['lit', 2], ['lit', 0.5]]
     pool.append(['obj', _scalar_desc(shape, 'float', 'mix' if shape not in ((), (0,)) else 'F', 't')])
     pool.append(['bcast'])        # same class, another array shape that broadcasts with the receiver's
+    pool.append(['bcast1'])       # same class, shape (1,), fully masked through an ARRAY mask
     pool.append(['lit', None])
     if cname == 'Units':
         return [['units', 'SEC'], ['self'], ['lit', None], ['lit', 2], ['units', 'KM']]
@@ -468,6 +469,14 @@ def build_arg(spec, recv, rdesc, Pm, salt=1):
         return build_receiver(rdesc, Pm, salt)
     if t == 'obj':
         return build_receiver(spec[1], Pm, salt)
+    if t == 'bcast1':
+        if rdesc is None or 'shape' not in rdesc:
+            return Pm.Scalar([1.], [True])
+        d = dict(rdesc)
+        d['shape'], d['mask'], d['ro'], d['derivs'] = [1], 'aF', False, 'none'
+        o = build_receiver(d, Pm, salt)
+        o._mask_[...] = True
+        return o
     if t == 'bcast':
         if rdesc is None or 'shape' not in rdesc:
             return Pm.Scalar([1., 2., 3.])
